@@ -374,6 +374,14 @@ def _r7(ctx, pkg):
     fl = Flow(fn, CHEMDATA)
     ret = [simp(f.value) for f in fl.facts if f.kind == "return"]
     acc = ret[0][1] if len(ret) == 1 and ret[0][0] == "acc" else None
+    if acc is None and len(ret) == 1 and ret[0][0] == "tuple":
+        # the reader returns several tables: the one the module binds to `rate12_binding_energy` (by position of the unpacking)
+        for st in pkg.modules[CHEMDATA].body:
+            if isinstance(st, ast.Assign) and len(st.targets) == 1 and isinstance(st.targets[0], ast.Tuple) and isinstance(st.value, ast.Call) \
+                    and isinstance(st.value.func, ast.Name) and st.value.func.id == "_read_binding_energy" and len(st.targets[0].elts) == len(ret[0][1]):
+                for i, t in enumerate(st.targets[0].elts):
+                    if isinstance(t, ast.Name) and t.id == "rate12_binding_energy" and ret[0][1][i][0] == "acc":
+                        acc = ret[0][1][i][1]
     writes = [f for f in fl.facts if f.target == acc and f.kind in ("mutate", "store")]
     ok = False
     found = ""
